@@ -2,9 +2,10 @@
    text served to the real adapters comes from here), boolean equality model = implementation, and the property's
    decision procedure `faithfulb` (sound for `faithful_any`, see AdaptersProofs.faithfulb_sound) that is evaluated
    on the IMPLEMENTATION's outputs. *)
-From Coq Require Import NArith ZArith Ascii String List Bool Lia.
+From Coq Require Import Uint63.
+From Coq Require Import NArith ZArith Ascii String List Bool Lia Permutation.
 From Coq Require Import Init.Byte.
-From PyC Require Import Base Cbor Dict Value Json Adapters.
+From PyC Require Import Base Cbor Dict Value Json Adapters AdaptersProofs.
 Import ListNotations.
 Open Scope string_scope.
 Open Scope list_scope.
@@ -35,32 +36,62 @@ Definition case_hash (us : list utxo_model) (ds : list (bytes * bytes)) : bytes 
                                 | Some (SPlutus v b) => [(n2b v :: b, fst (snd ud)); (n2b v :: enc (CB b), snd (snd ud))]
                                 | _ => []
                                 end) (combine us ds)).
-(* documents as [key; text; key; text; ...], every string as its list of bytes (cheap to print and to parse) *)
-Definition case_docs (c : case) : list (list byte) :=
+(* ---------- cheap literals / printing for the cases files (glue only; no theorem depends on it) ----------
+   string and list-of-constructor literals cost coqc 40-50 us per character, primitive 63-bit integers are
+   parsed and printed natively: byte strings travel as big-endian groups of 7 bytes *)
+Definition byte_of_int (i : Uint63.int) : byte := n2b (Z.to_N (Uint63.to_Z i)).
+Fixpoint bytes_of_int (k : nat) (i : Uint63.int) : bytes :=       (* the k low-order bytes, most significant first *)
+  match k with
+  | O => []
+  | S k' => bytes_of_int k' (Uint63.lsr i 8%uint63) ++ [byte_of_int (Uint63.land i 255%uint63)]
+  end.
+(* ub n groups : the n bytes packed in groups of 7 (the last group holds the remaining 1..7 bytes) *)
+Fixpoint ub (n : nat) (l : list Uint63.int) : bytes :=
+  match l with
+  | [] => []
+  | i :: r => if Nat.leb n 7 then bytes_of_int n i else bytes_of_int 7 i ++ ub (n - 7) r
+  end.
+Definition int_of_byte (b : byte) : Uint63.int := Uint63.of_Z (Z.of_N (b2n b)).
+Fixpoint pack_go (l : list byte) (acc : Uint63.int) (k : nat) : list Uint63.int :=
+  match l with
+  | [] => match k with O => [] | _ => [acc] end
+  | b :: r => let acc' := Uint63.add (Uint63.mul acc 256%uint63) (int_of_byte b) in
+              match k with
+              | 6%nat => acc' :: pack_go r 0%uint63 0
+              | _ => pack_go r acc' (S k)
+              end
+  end.
+(* length, then the groups *)
+Definition pack (s : string) : list Uint63.int :=
+  let l := list_byte_of_string s in Uint63.of_Z (Z.of_nat (length l)) :: pack_go l 0%uint63 0.
+
+(* the flat listing order as a permutation of the grouped listing, given by indices *)
+Definition perm_flat (a : uassets) (idx : list nat) : flat_assets :=
+  map (fun i => nth i (flatten a) ([], [], 0%N)) idx.
+
+(* documents as [key; text; key; text; ...], every string packed *)
+Definition case_docs (c : case) : list (list Uint63.int) :=
   let '(x, addr, us, _) := c in
-  flat_map (fun kt => [list_byte_of_string (fst kt); list_byte_of_string (snd kt)]) (service_docs (render x addr us)).
+  flat_map (fun kt => [pack (fst kt); pack (snd kt)]) (service_docs (render x addr us)).
 
 (* ---------- boolean equalities ---------- *)
 Definition opt_eqb {A} (e : A -> A -> bool) (a b : option A) : bool :=
   match a, b with Some x, Some y => e x y | None, None => true | _, _ => false end.
-Fixpoint list_eqb {A} (e : A -> A -> bool) (a b : list A) : bool :=
-  match a, b with
-  | [], [] => true
-  | x :: a', y :: b' => e x y && list_eqb e a' b'
-  | _, _ => false
-  end.
+Section ListEq.
+  Context {A : Type} (e : A -> A -> bool).
+  Fixpoint list_eqb (a b : list A) : bool :=
+    match a, b with
+    | [], [] => true
+    | x :: a', y :: b' => e x y && list_eqb a' b'
+    | _, _ => false
+    end.
+End ListEq.
 
 Fixpoint nscript_eqb (a b : nscript) : bool :=
-  let all := fix all (l m : list nscript) : bool :=
-    match l, m with
-    | [], [] => true
-    | x :: l', y :: m' => nscript_eqb x y && all l' m'
-    | _, _ => false
-    end in
   match a, b with
   | NSig x, NSig y => bytes_eqb x y
-  | NAll l, NAll m | NAny l, NAny m => all l m
-  | NAtLeast n l, NAtLeast k m => Z.eqb n k && all l m
+  | NAll l, NAll m | NAny l, NAny m => list_eqb nscript_eqb l m
+  | NAtLeast n l, NAtLeast k m => Z.eqb n k && list_eqb nscript_eqb l m
   | NAfter s, NAfter t | NBefore s, NBefore t => Z.eqb s t
   | _, _ => false
   end.
@@ -72,24 +103,21 @@ Definition script_eqb (a b : script_m) : bool :=
   end.
 
 Fixpoint pyd_eqb (a b : pyd) : bool :=
-  let all := fix all (l m : list pyd) : bool :=
-    match l, m with
-    | [], [] => true
-    | x :: l', y :: m' => pyd_eqb x y && all l' m'
-    | _, _ => false
-    end in
   match a, b with
-  | YTag t l, YTag u m | YTag102 t l, YTag102 u m => Z.eqb t u && all l m
-  | YDict l, YDict m =>
-      (fix allp (l m : list (pyd * pyd)) : bool :=
-         match l, m with
-         | [], [] => true
-         | x :: l', y :: m' => pyd_eqb (fst x) (fst y) && pyd_eqb (snd x) (snd y) && allp l' m'
-         | _, _ => false
-         end) l m
+  | YTag t l, YTag u m | YTag102 t l, YTag102 u m => Z.eqb t u && list_eqb pyd_eqb l m
+  | YDict l, YDict m => list_eqb (fun x y => pyd_eqb (fst x) (fst y) && pyd_eqb (snd x) (snd y)) l m
   | YInt x, YInt y => Z.eqb x y
   | YBytes x, YBytes y | YByteString x, YByteString y => bytes_eqb x y
-  | YIList l, YIList m => all l m
+  | YIList l, YIList m => list_eqb pyd_eqb l m
+  | _, _ => false
+  end.
+Fixpoint pdata_eqb (a b : pdata) : bool :=
+  match a, b with
+  | PConstr c l, PConstr d m => Z.eqb c d && list_eqb pdata_eqb l m
+  | PMap l, PMap m => list_eqb (fun x y => pdata_eqb (fst x) (fst y) && pdata_eqb (snd x) (snd y)) l m
+  | PList l, PList m => list_eqb pdata_eqb l m
+  | PInt x, PInt y => Z.eqb x y
+  | PBytes x, PBytes y => bytes_eqb x y
   | _, _ => false
   end.
 Definition adatum_eqb (a b : adatum) : bool :=
@@ -145,7 +173,7 @@ Definition datum_okb (d : datum_m) (r : option bytes * option adatum) : bool :=
       match fst r with None => true | Some h' => bytes_eqb h' h end &&
       match snd r with
       | Some (ARaw b) => bytes_eqb b raw
-      | Some (AData y) => match pdata_of_pyd y with Some pd' => pyd_eqb (pyd_of_pdata pd') (pyd_of_pdata pd) | None => false end
+      | Some (AData y) => match pdata_of_pyd y with Some pd' => pdata_eqb pd' pd | None => false end
       | None => false
       end
   end.
@@ -184,3 +212,143 @@ Definition c20_oracle (c : case) (impl : result (list autxo)) : bool :=
 
 Definition case_supported (c : case) : bool :=
   let '(x, _, us, _) := c in forallb (fun u => script_supported x (u_script u)) us.
+
+
+(* ================================================================ soundness of the decision procedure *)
+Lemma list_eqb_eq {A} (e : A -> A -> bool) l : Forall (fun x => forall y, e x y = true -> x = y) l ->
+  forall m, list_eqb e l m = true -> l = m.
+Proof.
+  induction 1 as [|x r Hx Hr IH]; intros [|y m]; cbn; try discriminate; [reflexivity|].
+  intros E. apply andb_true_iff in E as [E1 E2]. f_equal; [now apply Hx | now apply IH].
+Qed.
+
+Lemma nscript_eqb_eq : forall a b, nscript_eqb a b = true -> a = b.
+Proof.
+  induction a as [kh|l IH|l IH|n l IH|s|s] using nscript_ind'; intros [kh'|l'|l'|n' l'|s'|s']; cbn [nscript_eqb]; try discriminate; intros E.
+  - f_equal. now apply bytes_eqb_eq.
+  - f_equal. now apply (list_eqb_eq nscript_eqb).
+  - f_equal. now apply (list_eqb_eq nscript_eqb).
+  - apply andb_true_iff in E as [E1 E2]. apply Z.eqb_eq in E1. subst. f_equal. now apply (list_eqb_eq nscript_eqb).
+  - f_equal. now apply Z.eqb_eq.
+  - f_equal. now apply Z.eqb_eq.
+Qed.
+
+Lemma pdata_eqb_eq : forall a b, pdata_eqb a b = true -> a = b.
+Proof.
+  induction a as [c fs IH|kvs IH|l IH|z|b0] using pdata_ind'; intros [c' fs'|kvs'|l'|z'|b']; cbn [pdata_eqb]; try discriminate; intros E.
+  - apply andb_true_iff in E as [E1 E2]. apply Z.eqb_eq in E1. subst. f_equal. now apply (list_eqb_eq pdata_eqb).
+  - f_equal. revert E. apply list_eqb_eq. eapply Forall_impl; [|exact IH].
+    intros [k v] [Hk Hv] [k' v'] E. cbn [fst snd] in *. apply andb_true_iff in E as [E1 E2]. f_equal; auto.
+  - f_equal. now apply (list_eqb_eq pdata_eqb).
+  - f_equal. now apply Z.eqb_eq.
+  - f_equal. now apply bytes_eqb_eq.
+Qed.
+
+Lemma script_eqb_eq a b : script_eqb a b = true -> a = b.
+Proof.
+  destruct a, b; cbn; try discriminate; intros E.
+  - apply andb_true_iff in E as [E1 E2]. apply N.eqb_eq in E1. apply bytes_eqb_eq in E2. now subst.
+  - f_equal. now apply nscript_eqb_eq.
+Qed.
+
+Lemma opt_eqb_eq {A} (e : A -> A -> bool) a b : (forall x y, e x y = true -> x = y) -> opt_eqb e a b = true -> a = b.
+Proof. intros He. destruct a, b; cbn; try discriminate; [|reflexivity]. intros E. f_equal. now apply He. Qed.
+
+Lemma bytes_nodup_sound l : bytes_nodup l = true -> NoDup l.
+Proof.
+  induction l as [|x r IH]; cbn; [constructor|]. intros E. apply andb_true_iff in E as [E1 E2].
+  constructor; [|now apply IH]. intros Hin. apply negb_true_iff in E1.
+  assert (existsb (bytes_eqb x) r = true) by (apply existsb_exists; exists x; split; [assumption | apply bytes_eqb_refl]).
+  congruence.
+Qed.
+
+Lemma datum_okb_sound d r : datum_okb d r = true -> datum_ok d r.
+Proof.
+  destruct d as [|h known|h raw pd], r as [dh da]; cbn [datum_okb datum_ok fst snd].
+  - destruct dh, da; try discriminate. reflexivity.
+  - intros E. apply andb_true_iff in E as [E1 E2]. split.
+    + destruct dh as [h'|]; cbn in E1; [|discriminate]. apply bytes_eqb_eq in E1. now subst.
+    + destruct da as [[b|y]|]; [| discriminate | now left].
+      destruct known as [pre|]; [|discriminate]. apply bytes_eqb_eq in E2. subst. right. now exists b.
+  - intros E. apply andb_true_iff in E as [E1 E2]. split.
+    + destruct dh as [h'|]; [right; apply bytes_eqb_eq in E1; now subst | now left].
+    + destruct da as [[b|y]|]; [| | discriminate].
+      * apply bytes_eqb_eq in E2. subst. now left.
+      * right. exists y. split; [reflexivity|]. destruct (pdata_of_pyd y) as [pd'|]; [|discriminate].
+        apply pdata_eqb_eq in E2. now subst.
+Qed.
+
+Lemma flookup_in_some l p n q : In (p, n, q) l -> exists q', flookup l p n = Some q'.
+Proof.
+  induction l as [|[[p' n'] q'] r IH]; [intros []|]. cbn [flookup]. intros [E|Hin].
+  - inversion E; subst. rewrite !bytes_eqb_refl. now exists q.
+  - destruct (bytes_eqb p' p && bytes_eqb n' n); [now exists q' | now apply IH].
+Qed.
+
+Theorem faithfulb_sound addr u o : wf_assets (u_assets u) -> faithfulb addr u o = true -> faithful_any addr u o.
+Proof.
+  intros Hwa E. unfold faithfulb in E.
+  repeat (apply andb_true_iff in E as [E ?]).
+  rename H into Hscript, H0 into Hdatum, H1 into Hgroups, H2 into Hkeys, H3 into Hextra, H4 into Hall, H5 into Hlov, H6 into Haddr, H7 into Hix.
+  apply bytes_eqb_eq in E. apply Z.eqb_eq in Hix, Hlov. apply String.eqb_eq in Haddr.
+  rewrite forallb_forall in Hall, Hextra, Hgroups.
+  pose proof (nodup_fkeys_flatten _ Hwa) as Hnd.
+  (* every modelled entry is there with its quantity *)
+  assert (A1 : forall p n q, In (p, n, q) (flatten (u_assets u)) -> dget (mget (a_assets o) p) n = Some (Z.of_N q)).
+  { intros p n q Hin. specialize (Hall _ Hin). cbn [fst snd] in Hall.
+    destruct (dget (mget (a_assets o) p) n) as [q'|]; [|discriminate]. apply Z.eqb_eq in Hall. now subst. }
+  (* nothing else is there *)
+  assert (A2 : forall p n, In n (keys (mget (a_assets o) p)) -> exists q, flookup (flatten (u_assets u)) p n = Some q).
+  { intros p n Hin. unfold mget in Hin. destruct (dget (a_assets o) p) as [a|] eqn:Ea; [|contradiction].
+    apply dget_In in Ea. specialize (Hextra _ Ea). cbn [fst snd] in Hextra. rewrite forallb_forall in Hextra.
+    apply in_map_iff in Hin as ([n' q'] & En & Hin). cbn in En. subst n'. specialize (Hextra _ Hin). cbn [fst] in Hextra.
+    destruct (flookup (flatten (u_assets u)) p n) as [q|]; [now exists q | discriminate]. }
+  unfold faithful_any.
+  refine (conj E (conj Hix (conj Haddr (conj Hlov (conj _ (conj _ (conj _ (conj _ _)))))))).
+  - intros p n. unfold content, aget, ucontent. destruct (flookup (flatten (u_assets u)) p n) as [q|] eqn:Ef.
+    + apply flookup_some in Ef. now rewrite (A1 _ _ _ Ef).
+    + destruct (dget (mget (a_assets o) p) n) as [q'|] eqn:Ed; [|reflexivity].
+      assert (Hin : In n (keys (mget (a_assets o) p))).
+      { destruct (in_dec bytes_eq_dec n (keys (mget (a_assets o) p))) as [Hi|Hi]; [assumption|].
+        apply dget_None_notin in Hi. congruence. }
+      destruct (A2 _ _ Hin) as [q Hq]. congruence.
+  - intros p n. unfold present, upresent. split.
+    + intros Hin. destruct (A2 _ _ Hin) as [q Hq]. apply flookup_some in Hq.
+      change (p, n) with (fkey (p, n, q)). now apply in_map.
+    + intros Hin. apply in_map_iff in Hin as ([[p' n'] q] & Ek & Hin). unfold fkey in Ek. cbn in Ek. inversion Ek; subst.
+      pose proof (A1 _ _ _ Hin) as Hd.
+      destruct (in_dec bytes_eq_dec n (keys (mget (a_assets o) p))) as [Hi|Hi]; [assumption|].
+      apply dget_None_notin in Hi. congruence.
+  - split.
+    + now apply bytes_nodup_sound.
+    + intros p a Hin. specialize (Hgroups _ Hin). cbn [snd] in Hgroups. apply andb_true_iff in Hgroups as [G1 G2].
+      split; [now apply bytes_nodup_sound|]. destruct a; [discriminate | discriminate].
+  - now apply datum_okb_sound.
+  - apply (opt_eqb_eq script_eqb); [apply script_eqb_eq | assumption].
+Qed.
+
+Theorem c20_oracle_sound x addr us ds impl :
+  Forall (fun u => wf_assets (u_assets u)) us -> c20_oracle (x, addr, us, ds) impl = true ->
+  exists outs, impl = Ok outs /\ Forall2 (faithful_any addr) us outs.
+Proof.
+  intros Hw. unfold c20_oracle. destruct impl as [outs|k]; [|discriminate]. intros E. exists outs. split; [reflexivity|].
+  revert outs E. induction Hw as [|u r Hu Hr IH]; intros [|o outs]; cbn [forallb2]; try discriminate; [constructor|].
+  intros E. apply andb_true_iff in E as [E1 E2]. constructor; [now apply faithfulb_sound | now apply IH].
+Qed.
+
+(* the per-service datum convention is an instance of the service-independent reading *)
+Lemma datum_report_ok x d : datum_ok d (datum_report x d).
+Proof.
+  destruct d as [|h known|h raw pd]; cbn [datum_report datum_ok].
+  - reflexivity.
+  - destruct x, known as [pre|]; cbn; split; try reflexivity; try (now left); right; now exists pre.
+  - destruct x; cbn; split; try (now left); try (right; reflexivity).
+    right. exists (pyd_of_pdata pd). split; [reflexivity | apply pdata_of_pyd_rt].
+Qed.
+
+Lemma faithful_is_faithful_any x addr u o : faithful x addr u o -> faithful_any addr u o.
+Proof.
+  intros (A & B & C & D & E & F & G & Hd & I). unfold faithful_any.
+  refine (conj A (conj B (conj C (conj D (conj E (conj F (conj G (conj _ I)))))))).
+  rewrite Hd. apply datum_report_ok.
+Qed.
